@@ -24,6 +24,7 @@ func init() {
 }
 
 func runC20(c *eng.Ctx) {
+	hardLinkWriteThrough(c, "PROV-chunk-delete")
 	P := c.P
 	sinkNames := []string{"filer.Filer).DeleteChunks", "filer.Filer).DirectDeleteChunks", "filer.Filer).doDeleteFileIds"}
 	isSink := eng.CallTo(sinkNames...)
